@@ -348,7 +348,7 @@ func (fi *FileInfo) checkObjects() error {
 				// file) yields io.EOF from the scanner.  This says something
 				// about this candidate only, so mark it as broken instead of
 				// giving up on the objects already found.
-				if IsMalformed(err) || err == io.EOF || err == io.ErrUnexpectedEOF {
+				if isFileDefect(err) {
 					objInfo.Broken = true
 					continue
 				}
@@ -498,6 +498,8 @@ func (fi *FileInfo) getTrailer() (Dict, error) {
 				if ok && stm.Dict["Root"] != nil {
 					return stm.Dict, nil
 				}
+			} else if !isFileDefect(err) {
+				return nil, err
 			}
 		}
 
@@ -505,12 +507,21 @@ func (fi *FileInfo) getTrailer() (Dict, error) {
 		trailer, err := fi.readTrailer(sect)
 		if err == nil {
 			return trailer, nil
+		} else if sect.TrailerPos != 0 && !isFileDefect(err) {
+			return nil, err
 		}
 
 		// TODO(voss): method 3: Try to collect all the pieces to build
 		// our own trailer dictionary.
 	}
 	return nil, errors.New("no trailer found")
+}
+
+// isFileDefect reports whether err says something about the contents of the
+// file (malformed or truncated data), as opposed to a failure of the byte
+// source.  Only the former can be worked around by looking elsewhere.
+func isFileDefect(err error) bool {
+	return IsMalformed(err) || err == io.EOF || err == io.ErrUnexpectedEOF
 }
 
 func (fi *FileInfo) readTrailer(sect *FileSection) (Dict, error) {
